@@ -6,6 +6,7 @@ Engine S (z3): larger literal lists with the constant swept, and the mapping bui
 import itertools
 
 from ..sengine import SHarness, register, shard_fn
+from .. import bigpoints
 from ..core import Run, run_shards
 from .. import gen, xengine
 from ..gen import Vars, formula_class
@@ -100,6 +101,13 @@ class Mapping(SHarness):
             f = F.new_sparse_mapping(gen.mk_bip(p))
         else:
             f = F.new_binary_mapping(p['n'], p['m'])
+            if (p['n'] + p['m']) % 2:
+                # the caller asks for some "f(i) != j" clauses first and edits the lists it got back (they are the caller's)
+                for i in range(1, p['n'] + 1):
+                    for j in range(0, p['m']):
+                        cl = f.forbid(i, j)
+                        cl.append(1)
+                        cl.reverse()
         getattr(F, 'force_%s_mapping' % p['kind'])(f)
         return F
 
@@ -198,6 +206,7 @@ def run(tier):
                        'z3 is sound']
     for h in HARNESSES:
         items = [(h.name, p) for p in h.points(tier)]
+        items += [(h.name, p) for p in bigpoints.big_points(h.name, tier)]
         part = run_shards(shard_fn, items)
         run.add(part, {'harness': h.name, 'engine': 'S', 'points': len(items)})
     conds = xconds(tier)
